@@ -407,6 +407,11 @@ func init() {
 	// ---------------------------------------------------------------- C01
 	register(&Prop{ID: "C01",
 		Gen: func(r *RNG, tier string, run int) *Trace {
+			if tier == "thorough" && run%200003 == 77 {
+				t := genC13ManyResets(r, true) // 65536 and more Resets of one instance
+				t.Prop, t.ResetAt = "", 0
+				return t
+			}
 			if run%211 == 5 {
 				return genSAGrow(r, r.pickStr("GSAP", "GSAP", "OSAP"))
 			}
